@@ -52,7 +52,12 @@ func init() {
 			return x.CondExpr(e, V, true)
 		}
 		if fn := x.Func(f, "Queue", "Pop"); fn != nil {
-			b := fn.Body.List
+			b := append([]ast.Stmt(nil), fn.Body.List...)
+			// `cur.Remove()` unlinks the first element of q.list and `q.size--` counts it: the cursor and its list know
+			// nothing of q.size, and both come before the reset test — either order is the same function
+			if len(b) == 7 && x.Src(b[3]) == "q.size--" && x.Src(b[4]) == "cur.Remove()" {
+				b[3], b[4] = b[4], b[3]
+			}
 			if x.wantStmts("Queue.Pop", b, "cur := q.list.cfirst()", "out := cur.Get()", "*", "cur.Remove()", "*", "*", "return out, true") {
 				g := b[2].(*ast.IfStmt)
 				if x.Src(g.Cond) != "cur.AtEnd()" || g.Else != nil || g.Init != nil {
